@@ -74,6 +74,11 @@ fn vxw_stub_stop_start_unmask_enable_disable() {
         }
     }
     let _ = fs::write(dir.join(format!("{:04}.args", n)), args.join(" "));
+    // like systemd: stopping a unit whose unit file does not exist fails ("Unit ... not loaded", exit status 5); every other verb succeeds
+    if args.len() == 2 && args[0] == "stop" && !Path::new(SYS[3]).exists() {
+        eprintln!("Failed to stop {}.service: Unit {}.service not loaded.", args[1], args[1]);
+        std::process::exit(5);
+    }
 }
 
 // ---- role 3: the driver
@@ -477,7 +482,20 @@ fn explore(env: &mut Env, st: &State, depth: usize, pkg: &Files, root_desc: &str
         if let Some(next) = step(env, st, cmd, pkg, root_desc, fails) {
             // after `uninstall service` the statement does not fix which files remain: continue from what is observed
             if next.sys.iter().any(|f| f.is_some()) != next.sys.iter().all(|f| f.is_some()) {
-                continue; // partially installed: outside the initial states the statement quantifies over
+                // partially installed (what `uninstall service` leaves): not an initial state of the statement, but sequences go through
+                // it. The two commands whose clause does not depend on the state they start from are tried from here: `uninstall
+                // package` (the installed files are gone) and `install` (exactly the packaged files).
+                if depth > 1 {
+                    for c2 in [Cmd::UninstallPackage, Cmd::Install] {
+                        *n += 1;
+                        if let Some(n2) = step(env, &next, c2, pkg, root_desc, fails) {
+                            if n2.sys.iter().any(|f| f.is_some()) == n2.sys.iter().all(|f| f.is_some()) {
+                                explore(env, &n2, depth.saturating_sub(2), pkg, root_desc, fails, n, t0);
+                            }
+                        }
+                    }
+                }
+                continue;
             }
             explore(env, &next, depth - 1, pkg, root_desc, fails, n, t0);
         }
